@@ -18,6 +18,7 @@ import ast
 
 from ..engine.model import AnalysisError, src, walk_own
 from ..engine import tv
+from ..engine.inline import Inliner
 from ..engine.normal import is_num, num, show
 from ..engine.mrspec import C08_DYNAMICS
 from . import c02
@@ -129,36 +130,31 @@ def check(model, rep):
 
     # ---------------------------------------------------------------- R08.3
     rep.rule('R08.3', 'arm-level zero patterns; kernel call sites: argument order, Wrench payload vs 1-D Ftip, unpack arity')
+    SUB = (('np.linalg.', 'ling.'),)
     cg = arm.methods.get('coriolisGravity')
     if cg is not None:
         r = returns_of(cg)
-        asg = assigns_of(cg)
-        v = resolve(r[0].value, asg) if r else None
-        ok = False
-        if isinstance(v, ast.Subscript) and src(v.slice) == '0' and isinstance(v.value, ast.Call) and src(v.value.func) == 'self.inverseDynamics':
-            a = [src(x) for x in v.value.args]
-            p = cg.params
-            ok = len(a) == 5 and a[0] == p[1] and a[1] == p[2] and a[2].replace(' ', '') in ('0*%s' % p[1], 'np.zeros(len(%s))' % p[1]) \
-                and a[3] == p[3] and a[4].replace(' ', '') in ('np.zeros((6,1))', 'np.zeros(6)', 'np.zeros((6))')
-        rep.ob('R08.3', cg, 'h = inverseDynamics(q, qd, 0, grav, F=0)[0]', ok, 'coriolisGravity is %s' % (src(v) if v is not None else '?'))
+        p = cg.params
+        il = Inliner(cg)
+        zq = ('0*%s' % p[1], 'np.zeros(len(%s))' % p[1], '%s*0' % p[1])
+        zf = ('np.zeros((6,1))', 'np.zeros(6)')
+        want = ['self.inverseDynamics(%s,%s,%s,%s,%s)[0]' % (p[1], p[2], a_, p[3], f_) for a_ in zq for f_ in zf]
+        rep.ob('R08.3', cg, 'h = inverseDynamics(q, qd, 0, grav, F=0)[0]', bool(r) and il.same(r[0].value, want), 'coriolisGravity is %s' % (il.text(r[0].value) if r else '?'))
     fde = arm.methods.get('forwardDynamicsE')
     if fde is not None:
-        asg = assigns_of(fde)
         p = fde.params
-        ee = asg.get('ee', [None])[0]
-        ok_ee = False
-        if isinstance(ee, ast.Subscript) and src(ee.slice) == '0' and isinstance(ee.value, ast.Call) and src(ee.value.func) == 'self.inverseDynamics':
-            a = [src(x).replace(' ', '') for x in ee.value.args]
-            zl = ('np.zeros(len(%s))' % p[1], 'np.zeros((len(%s)))' % p[1], '0*%s' % p[1])
-            ok_ee = len(a) == 5 and a[0] == p[1] and a[1] in zl and a[2] in zl and a[3] in ('np.zeros(3)', 'np.zeros((3))') and a[4] == p[5]
-        rep.ob('R08.3', fde, 'ee = inverseDynamics(q, 0, 0, g=0, F)[0]', ok_ee, 'tip-force term is %s' % (src(ee) if ee is not None else '?'))
-        M_ok = 'M' in asg and src(asg['M'][0]) == 'self.massMatrix(%s)' % p[1]
-        h_ok = 'h' in asg and src(asg['h'][0]) == 'self.coriolisGravity(%s, %s, %s)' % (p[1], p[2], p[4])
-        qdd = asg.get('theta_dot_dot', [None])[0]
-        mt = resolve(qdd.right, asg) if isinstance(qdd, ast.BinOp) and isinstance(qdd.op, ast.MatMult) else None
-        q_ok = mt is not None and src(qdd.left) in ('ling.pinv(M)', 'np.linalg.pinv(M)', 'np.linalg.inv(M)', 'ling.inv(M)') \
-            and src(mt).replace(' ', '') in ('%s-h.flatten()-ee.flatten()' % p[3], '(%s-h.flatten()-ee.flatten())' % p[3])
-        rep.ob('R08.3', fde, 'qdd = pinv(M(q)) @ (tau - h - ee)', M_ok and h_ok and q_ok, 'forwardDynamicsE does not solve M qdd = tau - h - ee')
+        il = Inliner(fde)
+        r = returns_of(fde)
+        elts = r[0].value.elts if r and isinstance(r[0].value, ast.Tuple) else []
+        zl = ('np.zeros(len(%s))' % p[1], '0*%s' % p[1])
+        ee_want = ['self.inverseDynamics(%s,%s,%s,np.zeros(3),%s)[0]' % (p[1], z1, z2, p[5]) for z1 in zl for z2 in zl]
+        M_t, h_t = 'self.massMatrix(%s)' % p[1], 'self.coriolisGravity(%s,%s,%s)' % (p[1], p[2], p[4])
+        qdd = il.text(elts[0]) if elts else '?'
+        ok_ee = len(elts) == 4 and il.same(elts[3], ee_want)
+        rep.ob('R08.3', fde, 'ee = inverseDynamics(q, 0, 0, g=0, F)[0]', ok_ee, 'the tip-force term is %s' % (il.text(elts[3]) if len(elts) == 4 else '?'))
+        want = ['%s(%s)@(%s-%s.flatten()-%s.flatten())' % (inv, M_t, p[3], h_t, e_) for inv in ('ling.pinv', 'ling.inv') for e_ in ee_want]
+        ok = bool(elts) and il.same(elts[0], want, subst=SUB)
+        rep.ob('R08.3', fde, 'qdd = pinv(M(q)) @ (tau - h - ee)', ok, 'forwardDynamicsE does not solve M qdd = tau - h - ee: %s' % qdd[:220])
     # kernel call sites from the arm
     n_sites = 0
     for name, fi in sorted(arm.methods.items()):
@@ -177,7 +173,7 @@ def check(model, rep):
                 want = role.get(k.params[i])
                 if want is None:
                     continue
-                got = src(a)
+                got = Inliner(fi).text(a)
                 ok = got == want or got.startswith(want + '.') or got.startswith('np.asarray(' + want) or got.startswith('np.array(' + want)
                 rep.ob('R08.3', fi, '%s arg %d (%s) = %s' % (k.name, i, k.params[i], got[:40]), ok,
                        'parameter `%s` of %s receives %s' % (k.params[i], k.name, got), line=c.lineno)
